@@ -197,6 +197,27 @@ def _dispatch(chk, f, fmt_table):
     # the dispatch runs only where `fmt in <table>` is known, and what made it known is a branch that raises
     conds = [norm(c) for c in path_conditions(f.node, inner, guard_ends=(ast.Raise,))]
     ok = f"fmt in {fmt_table}" in conds
+    if not ok:
+        # the guard may sit before the parser dispatch, itself under a test of the parser (`if parser == "molli": if fmt not in ..: raise`):
+        # read the function as it runs for this parser (`parser.lower()` is the parser itself for a lower-case spelling)
+        import copy as _copy
+
+        class _Low(ast.NodeTransformer):
+            def visit_Call(self, n):
+                self.generic_visit(n)
+                if isinstance(n.func, ast.Attribute) and n.func.attr == "lower" and not n.args and norm(n.func.value) == sel:
+                    return n.func.value
+                return n
+
+        # ... which holds only behind `parser = parser.lower()`: a guard that compares the spelling as given while the dispatch
+        # lowers it lets "Molli" pass the guard and reach the arms
+        cut_p = [i_ for i_, s_ in enumerate(f.node.body) if isinstance(s_, ast.Assign) and norm(s_.targets[0]) == sel and norm(s_.value) == f"{sel}.lower()"]
+        body_p = [_Low().visit(_copy.deepcopy(s_)) for s_ in f.node.body[cut_p[0] + 1:]] if cut_p else []
+        spec_p = _specialize(body_p, sel, "molli", {})
+        mod_p = ast.Module(body=spec_p, type_ignores=[])
+        ms_p = [m_ for m_ in ast.walk(mod_p) if isinstance(m_, ast.Match) and "fmt" in names_in(m_.subject)]
+        if len(ms_p) == 1:
+            ok = f"fmt in {fmt_table}" in [norm(c) for c in path_conditions(mod_p, ms_p[0], guard_ends=(ast.Raise,))]
     chk.decide(ok, "C09.R5", f"{f.key}:unsupported-format-guard", f.where(inner),
                f"`fmt not in {fmt_table}` raises ValueError before the format dispatch",
                f"the format dispatch is not dominated by a guard that raises ValueError for formats outside {fmt_table}")
@@ -365,8 +386,13 @@ def loader(chk, f, E, mol, ens):
                f"`{short(clobber[0], 50) if clobber else ''}` also runs when otype is a class (it is not guarded by a test for a string spelling): "
                f"ml.{E}(..., otype=ml.Structure) returns a different class than ml.Structure.{E}_<fmt>")
     # an explicit fmt wins over the file suffix
+    _explicit_fmt(chk, f)
+
+
+def _explicit_fmt(chk, f):
+    """every statement that takes a format from a file suffix (whatever local receives it)"""
     for st in walk_no_nested(f.node):
-        if isinstance(st, ast.Assign) and norm(st.targets[0]) == "fmt" and ".suffix" in norm(st.value):
+        if isinstance(st, ast.Assign) and isinstance(st.targets[0], ast.Name) and ".suffix" in norm(st.value):
             _fmt_precedence(chk, f, st)
 
 
@@ -410,6 +436,8 @@ def dumper(chk, f, E, mol, ens):
             r = prog.lookup(ci, want)
             chk.decide(r is not None and r[1].func is not None, "C09.R2", f"{f.key}:{want}:on-{ci.name}", f.where(c),
                        f"{ci.name}.{want} -> {r[0].name if r else None}", f"{ci.name} has no method {want}")
+    if "fmt" in f.params():
+        _explicit_fmt(chk, f)
     pu = possibly_unbound(f.node)
     if pu:
         for name, node, n in pu[:3]:
